@@ -1052,6 +1052,7 @@ class Filterbank(ABC):
             skipback=max_delay,
             **plan_kwargs,
         ):
+            out_ar.fill(0)
             kernels.subband(
                 data,
                 out_ar,
